@@ -234,6 +234,42 @@ example : mergeGenericKVs [("p", .map [("q", .int 1)])] [("p", .map [("r", .int 
     .ok [("p", .map [("q", .int 1), ("r", .int 2)]), ("x-e", .null)] := by rfl
 example : (mergeGenericKVs [("p", .map [])] [("p", .int 1)]).toBool = false := by decide
 
+/-! ## 3b. `ApplyExtends`: memoised recursive resolution is independent of the visit order -/
+
+/-- the memoising algorithm (`applyServiceExtends`, which stores every service it resolves on the way into the
+services map) run on a map in which some services are already resolved returns exactly what the service *denotes*
+in the original map, and leaves a map of the same kind -/
+theorem applyExtends_memo_sound {β : Type} (mrg : β → β → β) (m0 m m' : AL (XSvc β)) (k : Nat) (name : String) (r : β)
+    (hres : Res mrg m0 m) (h : applyOne mrg k m name = some (m', r)) :
+    (∃ j, val mrg j m0 name = some r) ∧ Res mrg m0 m' := applyOne_sound mrg m0 k m m' name r hres h
+
+/-- **`loader.ApplyExtends` does not depend on the order in which Go ranges over the services map**: for two
+orders that both visit every service, the loop fails or succeeds alike and, on success, yields the same services map
+(a resolved service is a fixed point of resolution).  `mrg` is any merge function; `n` any sufficient fuel. -/
+theorem applyExtends_perm {β : Type} (mrg : β → β → β) (n : Nat) (m0 : AL (XSvc β)) (hf : FuelEnough mrg n m0)
+    {order order' : List String} (hp : order'.Perm order) (hall : ∀ x, (find x m0).isSome = true → x ∈ order) :
+    (applyAll mrg n order' m0).isSome = (applyAll mrg n order m0).isSome ∧
+    ∀ mf mf', applyAll mrg n order m0 = some mf → applyAll mrg n order' m0 = some mf' →
+      ∀ x, find x mf' = find x mf := applyAll_perm mrg n m0 hf hp hall
+
+/-- the fuel hypothesis holds whenever the `extends` references descend along a rank below `n` (every acyclic
+services map has such a rank, e.g. the length of the chain below each service) -/
+theorem applyExtends_fuel_of_rank {β : Type} (mrg : β → β → β) (n : Nat) (m0 : AL (XSvc β)) (rank : String → Nat)
+    (hdown : ∀ x ref b, find x m0 = some (some ref, b) → rank ref < rank x)
+    (hbound : ∀ x, (find x m0).isSome = true → rank x < n) : FuelEnough mrg n m0 :=
+  fuelEnough_of_rank mrg n m0 rank hdown hbound
+
+/-- non-vacuity: worker → web → base, visited in two different orders, same result -/
+example :
+    applyAll (fun (b o : List String) => b ++ o) 4 ["worker", "web", "base"]
+      [("base", (none, ["b"])), ("web", (some "base", ["w"])), ("worker", (some "web", ["k"]))] =
+    applyAll (fun (b o : List String) => b ++ o) 4 ["base", "web", "worker"]
+      [("base", (none, ["b"])), ("web", (some "base", ["w"])), ("worker", (some "web", ["k"]))] := by decide
+
+/-- a circular reference is an error in every order -/
+example : applyAll (fun (b o : List String) => b ++ o) 3 ["a", "b"] [("a", (some "b", [])), ("b", (some "a", []))] = none ∧
+    applyAll (fun (b o : List String) => b ++ o) 3 ["b", "a"] [("a", (some "b", [])), ("b", (some "a", []))] = none := by decide
+
 /-! ## 4. `graph.newGraph` -/
 
 /-- the loop over one service's `depends_on`, **when the service does not depend on itself**: whether it fails,
